@@ -270,8 +270,11 @@ func (p *Prog) FieldMethodCalls(f *types.Var, methods ...string) []Site {
 			cc := c.Common()
 			if cc.IsInvoke() {
 				name = cc.Method.Name()
-			} else if sc := cc.StaticCallee(); sc != nil && sc.Signature.Recv() != nil {
+			} else if sc := cc.StaticCallee(); sc != nil && len(cc.Args) > 0 && (sc.Signature.Recv() != nil || (sc.Origin() != nil && sc.Origin().Signature.Recv() != nil)) {
 				name = sc.Name()
+				if o := sc.Origin(); o != nil {
+					name = o.Name()
+				}
 			} else {
 				return
 			}
@@ -592,3 +595,18 @@ func blockReach(start *ssa.BasicBlock, cut func(from *ssa.BasicBlock, succIdx in
 
 func fmtT(v any) string  { return fmt.Sprintf("%T", v) }
 func fmtInt(i int) string { return fmt.Sprint(i) }
+
+// calleeName returns the (origin) name of the static callee of a call.
+func calleeName(c ssa.CallInstruction) string {
+	sc := c.Common().StaticCallee()
+	if sc == nil {
+		if c.Common().IsInvoke() {
+			return c.Common().Method.Name()
+		}
+		return ""
+	}
+	if o := sc.Origin(); o != nil {
+		return o.Name()
+	}
+	return sc.Name()
+}
